@@ -211,8 +211,52 @@ def no_clean_case(pr):
     return None
 
 
+def clean_through_aggregate_case(shape):
+    """`--clean G` for an aggregate G (directly requested, nested, or below a build target) cleans and re-runs exactly what
+    `--clean <its dependencies>` does: the two requests are compared on two copies of the same history"""
+    def fn(pr):
+        def tgt(n, deps=None):
+            d = {"input": [{"paths": ["src_%s" % n]}], "output": [{"paths": ["out_%s.txt" % n]}], "build": logging_build(n, body="echo 1 >> out_%s.txt" % n)}
+            if deps:
+                d["dependencies"] = deps
+            return d
+        for n in ("a", "b", "c", "top"):
+            pr.write("src_%s/f.txt" % n, n)
+        targets = {"a": tgt("a"), "b": tgt("b"), "c": tgt("c", ["a"]), "inner": {"dependencies": ["a", "b"]}, "outer": {"dependencies": ["inner", "c"]}, "top": tgt("top", ["outer"])}
+        pr.write("zinoma.yml", yml(targets))
+        req, flat = {"direct": (["inner"], ["a", "b"]), "nested": (["outer"], ["a", "b", "c"]), "below-build": (["top"], ["top", "a", "b", "c"])}[shape]
+        seen = []
+        for args in (req, flat):
+            pr.remove(".zinoma")
+            for n in ("a", "b", "c", "top"):
+                pr.remove("out_%s.txt" % n)
+            r = pr.run("top")
+            if r.rc != 0:
+                return None
+            pr.clear_log()
+            r = pr.run("--clean", *args)
+            if r.rc != 0 or r.timed_out:
+                return {"property": ["C12", "C20"], "expected": "`--clean %s` exits 0" % " ".join(args), "observed": "exit %s" % r.rc, "zinoma": r.brief()}
+            started = sorted(l[2:] for l in pr.log() if l.startswith("s "))
+            # every cleaned target's output was removed before its script appended one line to it
+            lines = dict((n, len((pr.read("out_%s.txt" % n) or "").split())) for n in ("a", "b", "c", "top"))
+            seen.append((started, lines))
+            if started != sorted(flat):
+                return {"property": ["C12", "C20"], "expected": "`--clean %s` removes the state of %s and runs them all, never skipping" % (" ".join(args), flat), "observed": "scripts run: %s" % started, "zinoma": r.brief()}
+            for n in flat:
+                if lines[n] != 1:
+                    return {"property": ["C12", "C20"], "expected": "`--clean %s` removes out_%s.txt before %s runs again" % (" ".join(args), n, n), "observed": "out_%s.txt has %d lines" % (n, lines[n])}
+        if seen[0] != seen[1]:
+            return {"property": ["C20", "C12"], "expected": "`--clean %s` and `--clean %s` run the same scripts and leave the same outputs" % (" ".join(req), " ".join(flat)), "observed": "%s vs %s" % (seen[0], seen[1])}
+        return None
+    return fn
+
+
 def cases(seed, tier="quick"):
     return [
+        Case("clean", "clean-through-aggregate-direct", clean_through_aggregate_case("direct"), "--clean <aggregate> = --clean <its dependencies>"),
+        Case("clean", "clean-through-aggregate-nested", clean_through_aggregate_case("nested"), "--clean <aggregate of an aggregate>"),
+        Case("clean", "clean-through-aggregate-below-build", clean_through_aggregate_case("below-build"), "--clean <build target depending on an aggregate>"),
         Case("clean", "clean-targets-frame", clean_targets_case, "--clean gen: only gen's and dep's outputs and state go; links not followed; other untouched and still skipped"),
         Case("clean", "clean-targets-deletes", clean_targets_deletes_case, "--clean gen: declared outputs are really gone before the re-run"),
         Case("clean", "clean-all", clean_all_case, "--clean alone: all outputs and state of all projects, nothing else, no script"),
